@@ -150,7 +150,8 @@ def gen_case(rng, length, ci):
 
 # ---------------------------------------------------------------- statement oracle (implementation only)
 def segs_of(desc):
-    keys = sorted(k for k in desc if k.startswith("segment_"))
+    from harness import lang
+    keys = lang.segment_keys(desc)
     return [desc[k] for k in keys]
 
 
